@@ -1,1 +1,116 @@
-// harness bodies compiled inside quinn-proto/src/token.rs (feature __verif-hooks)
+// Harness bodies for quinn-proto/src/token.rs.
+
+use std::sync::Arc;
+
+/// Identity-plus-tag AEAD stand-in: `seal` appends one tag byte derived from the nonce, `open`
+/// accepts exactly what `seal` produced under the same nonce (the AEAD authenticity assumption).
+struct TagKey(u8);
+
+impl crate::crypto::AeadKey for TagKey {
+    fn seal(&self, data: &mut Vec<u8>, _aad: &[u8]) -> Result<(), crate::crypto::CryptoError> {
+        data.push(self.0 ^ 0xa5);
+        Ok(())
+    }
+    fn open<'a>(&self, data: &'a mut [u8], _aad: &[u8]) -> Result<&'a mut [u8], crate::crypto::CryptoError> {
+        let n = data.len();
+        if n == 0 || data[n - 1] != self.0 ^ 0xa5 {
+            return Err(crate::crypto::CryptoError);
+        }
+        Ok(&mut data[..n - 1])
+    }
+}
+
+struct TagTokenKey;
+
+impl HandshakeTokenKey for TagTokenKey {
+    fn aead_from_hkdf(&self, random_bytes: &[u8]) -> Box<dyn crate::crypto::AeadKey> {
+        Box::new(TagKey(random_bytes.first().copied().unwrap_or(0)))
+    }
+}
+
+struct NoCrypto;
+
+impl crate::crypto::ServerConfig for NoCrypto {
+    fn initial_keys(&self, _: u32, _: ConnectionId) -> Result<crate::crypto::Keys, crate::crypto::UnsupportedVersion> {
+        Err(crate::crypto::UnsupportedVersion)
+    }
+    fn retry_tag(&self, _: u32, _: ConnectionId, _: &[u8]) -> [u8; 16] {
+        [0; 16]
+    }
+    fn start_session(self: Arc<Self>, _: u32, _: &crate::transport_parameters::TransportParameters) -> Box<dyn crate::crypto::Session> {
+        unimplemented!()
+    }
+}
+
+struct FixedTime(SystemTime);
+
+impl crate::TimeSource for FixedTime {
+    fn now(&self) -> SystemTime {
+        self.0
+    }
+}
+
+struct FixedLog(bool);
+
+impl TokenLog for FixedLog {
+    fn check_and_insert(&self, _: u128, _: SystemTime, _: Duration) -> Result<(), TokenReuseError> {
+        if self.0 { Ok(()) } else { Err(TokenReuseError) }
+    }
+}
+
+/// Native replay body for the E2 query `e2_token_from_header` (C14): a genuine token (sealed with
+/// the server's key) presented from `same_addr`/`same_port` at `age` seconds after issue with
+/// the given lifetimes and reuse-log verdict.  `validated` must hold exactly when the token binds
+/// this address (and port for Retry tokens), is within its lifetime and - NEW_TOKEN tokens - the
+/// log accepted it; a stale or misplaced Retry token is an error; anything else is "no token".
+pub fn from_header_native(retry: bool, same_ip: bool, same_port: bool, age: u16, lifetime: u16, log_ok: bool, corrupt: bool) -> u32 {
+    let issued = UNIX_EPOCH + Duration::from_secs(1_000_000);
+    let issue_addr: SocketAddr = "10.0.0.1:4433".parse().unwrap();
+    let present_addr: SocketAddr = match (same_ip, same_port) {
+        (true, true) => issue_addr,
+        (true, false) => "10.0.0.1:5555".parse().unwrap(),
+        (false, true) => "10.0.0.2:4433".parse().unwrap(),
+        (false, false) => "10.0.0.2:5555".parse().unwrap(),
+    };
+    let odcid = ConnectionId::new(&[9; 8]);
+    let payload = if retry {
+        TokenPayload::Retry { address: issue_addr, orig_dst_cid: odcid, issued }
+    } else {
+        TokenPayload::Validation { ip: issue_addr.ip(), issued }
+    };
+    let token = Token { payload, nonce: 0x1234_5678_9abc_def0_1122_3344_5566_7788 };
+    let mut bytes = token.encode(&TagTokenKey);
+    if corrupt {
+        let n = bytes.len();
+        bytes[n - 17] ^= 1; // the tag byte
+    }
+    let mut cfg = ServerConfig::new(Arc::new(NoCrypto), Arc::new(TagTokenKey));
+    cfg.retry_token_lifetime = Duration::from_secs(if retry { lifetime as u64 } else { 1 << 30 });
+    cfg.validation_token.lifetime = Duration::from_secs(if retry { 1 << 30 } else { lifetime as u64 });
+    cfg.validation_token.log = Arc::new(FixedLog(log_ok));
+    cfg.time_source = Arc::new(FixedTime(issued + Duration::from_secs(age as u64)));
+    let dst_cid = ConnectionId::new(&[4; 8]);
+    let header = InitialHeader { dst_cid, src_cid: ConnectionId::new(&[5; 8]), token: Bytes::from(bytes), number: crate::packet::PacketNumber::U8(0), version: 1 };
+    let r = IncomingToken::from_header(&header, &cfg, present_addr);
+    let fresh = age <= lifetime;
+    if corrupt {
+        let Ok(t) = r else { panic!("an unauthentic token must be treated as absent, not as an error") };
+        assert!(!t.validated && t.retry_src_cid.is_none() && t.orig_dst_cid == dst_cid);
+        return 8;
+    }
+    if retry {
+        if same_ip && same_port && fresh {
+            let Ok(t) = r else { panic!("valid retry token rejected") };
+            assert!(t.validated && t.retry_src_cid == Some(dst_cid) && t.orig_dst_cid == odcid);
+            1
+        } else {
+            assert!(r.is_err(), "stale or misplaced Retry token must end the attempt with INVALID_TOKEN");
+            2
+        }
+    } else {
+        let Ok(t) = r else { panic!("NEW_TOKEN tokens never produce an error") };
+        assert!(t.validated == (same_ip && fresh && log_ok), "validated must mean: issued to this IP, within lifetime, not used before");
+        assert!(t.retry_src_cid.is_none() && t.orig_dst_cid == dst_cid);
+        4
+    }
+}
